@@ -19,6 +19,7 @@ func baseCfg(prop string, r *Rng) GenCfg {
 			nodes[i].StackDepthLimit = 256
 		}
 		c.Nodes = nodes
+		c.DeepCalls = true
 	}
 	return c
 }
@@ -63,6 +64,9 @@ func cfgFor(prop string, r *Rng) GenCfg {
 		f["storage"], f["resource"], f["container"], f["copy"], f["attachment"], f["event"], f["control"] = 4, 4, 4, 2, 2, 1, 1
 		f["capability"], f["contract"], f["hostsvc"] = 3, 2, 2
 		c.ScnRate = 0.3
+	}
+	if c.DeepCalls {
+		f["control"] += 4
 	}
 	// atree validation (a debug configuration, quadratic in container size) only on small-value plans, and only sometimes
 	if c.BigRate > 0.1 || !r.Chance(0.4) {
